@@ -7,6 +7,7 @@ import (
 // c04Extra: rules added after the fourth independent seeding round.
 func c04Extra(r *core.Run) {
 	p := r.P
+	defer c04r11(r) // round 11: the option's SignatureConfig reaches the gate unchanged (c04_r11.go)
 	defer c04r10(r) // round 10: the signature option marks every strict group as enabled (c04_r10.go)
 	defer c04r9(r)  // round 9: the unauthorized callback cannot commit a status other than 401 (c04_r9.go)
 	r.Check("D2/K1/auth-appended-on-every-path", "every route is bound with the authentication gates: in the function of package api that hands a route to Router.Handle, every path to that call passes engine.appendAuthHandler (whatever chain the server was built with)", func(o *core.O) {
